@@ -192,7 +192,7 @@ mutant: Hoare partition stays correct), C09/C06/C18: the reverted fixes of (a).
 (`/verif/seeded/<id>/`: `patch.diff`, `demo.cpp`, `notes.md`, `meta.json`).  Each was confirmed with
 `tools/seed_verify.sh`: the demonstration exits 0 on HEAD and non-zero with the patch, the 18
 pinned tests (examples target rebuilt) pass with the patch, then the property's quick check was run
-against the patched tree.  Rounds of 20 (one change per property; round 15 only for the five harnesses written last, C06, C09, C17, C18, C20; from round 2 on the agents were told which functions
+against the patched tree.  Rounds of 20 (one change per property; rounds 15 and 16 only for the five harnesses written last, C06, C09, C17, C18, C20; from round 2 on the agents were told which functions
 earlier rounds had used and asked for a different function and mechanism, later rounds also for defects that need a
 history, two cooperating sites, a boundary value or a rarely used option).  Caught at once by the check as it stood:
 {rounds_line}.  Every miss exposed a hole in an alphabet; the check was strengthened until the change was caught and
